@@ -293,15 +293,38 @@ Definition device_fire (st : dev_state) (now : Z) (i : nat) : dev_state * list d
       send_all (place st (Some i) r) net m (rev (h_outs r))
   end.
 
+(* ---------- time passes: the TaskManager fires what is due, earliest (time, counter) first ---------- *)
+Definition next_timer (l : list ssm) : option (Z * nat) :=
+  match SsmWorld.best_in 0 false l O None with Some (tm, _, _, _, i) => Some (tm, i) | None => None end.
+
+(* fire every timer due up to `limit` (None: until nothing is scheduled); the clock jumps to the due time
+   (harness/vnet.py VClock.run).  Returns the state, the frames, the clock, and whether the fuel ran out *)
+Fixpoint advance (fuel : nat) (st : dev_state) (now : Z) (limit : option Z) : dev_state * list dout * Z * bool :=
+  match fuel with
+  | O => (st, [], now, true)
+  | S f =>
+      match next_timer (d_str st) with
+      | None => (st, [], now, false)
+      | Some (tm, i) =>
+          if match limit with Some L => L <? tm | None => false end then (st, [], now, false) else
+          let now' := Z.max now tm in
+          let '(st1, o1) := device_fire st now' i in
+          let '(st2, o2, n2, b) := advance f st1 now' limit in (st2, o1 ++ o2, n2, b)
+      end
+  end.
+Definition ADV_FUEL : nat := 200.
+
 (* ---------- histories ---------- *)
 Inductive event :=
-| ERx (now : Z) (f : frame) (x : svc)
-| EFire (now : Z) (i : nat).
+| ERx (now : Z) (f : frame) (x : svc)       (* a frame arrives at virtual time now *)
+| EFire (now : Z) (i : nat)                 (* the timer of the i-th listed transaction fires *)
+| EAdv (now : Z) (limit : Z).               (* the clock runs from now up to limit *)
 
 Definition device_step (st : dev_state) (ev : event) : dev_state * list dout :=
   match ev with
   | ERx now f x => device_rx st now f x
   | EFire now i => device_fire st now i
+  | EAdv now limit => let '(st1, o, _, _) := advance ADV_FUEL st now (Some limit) in (st1, o)
   end.
 
 Fixpoint device_run (st : dev_state) (evs : list event) : dev_state * list (list dout) :=
@@ -346,7 +369,7 @@ Definition canon_apdu (a : apdu) : list Z :=
     else if a_type a =? 5 then nth 1 (a_data a) (-1) else 0);
    (if a_type a =? 5 then nth 3 (a_data a) (-1) else 0);
    SsmWorld.b3 (a_seg a); SsmWorld.b3 (a_mor a); (if a_type a =? 3 then a_seq a else if a_type a =? 4 then a_seq a else -1);
-   zlen (a_data a)].
+   (if a_type a =? 5 then 0 else zlen (a_data a))].
 Definition canon_dout (o : dout) : list Z :=
   match o with
   | DFrame dst rt a =>
@@ -364,26 +387,9 @@ Fixpoint canon_run (st : dev_state) (evs : list event) : list Z :=
   | ev :: r => let '(st1, o) := device_step st ev in canon_douts o ++ canon_state st1 ++ canon_run st1 r
   end.
 
-(* run the timers to quiescence: the earliest (time, counter) first, as the TaskManager heap does *)
-Definition next_timer (l : list ssm) : option (Z * nat) :=
-  match SsmWorld.best_in 0 false l O None with Some (tm, _, _, _, i) => Some (tm, i) | None => None end.
-
-Fixpoint quiesce (fuel : nat) (st : dev_state) (now : Z) : dev_state * list dout * bool :=
-  match fuel with
-  | O => (st, [], true)
-  | S f =>
-      match next_timer (d_str st) with
-      | None => (st, [], false)
-      | Some (tm, i) =>
-          let now' := Z.max now tm in
-          let '(st1, o1) := device_fire st now' i in
-          let '(st2, o2, b) := quiesce f st1 now' in (st2, o1 ++ o2, b)
-      end
-  end.
-
-(* a whole scenario: the events, then quiescence; canonical trace *)
+(* a whole scenario: the events, then the clock runs until nothing is scheduled; canonical trace *)
 Definition canon_scenario (c : SsmWorld.nodecfg) (dcc : Z) (evs : list event) (now_end : Z) : list Z :=
   let st0 := mkDev c [] [] 0 dcc RouterCache.empty [] false in
   let '(st1, _) := device_run st0 evs in
-  let '(st2, o, live) := quiesce 200 st1 now_end in
+  let '(st2, o, _, live) := advance ADV_FUEL st1 now_end None in
   canon_run st0 evs ++ canon_douts o ++ canon_state st2 ++ [zb live].
